@@ -668,6 +668,6 @@ func gen(r *rand.Rand, tier string, n int) []any {
 }
 
 func main() {
-	common.Main(common.Prop{ID: "C05", Facts: facts, Gen: gen, Run: run, QuickN: 1000, ThoroughN: 20000,
+	common.Main(common.Prop{ID: "C05", Facts: facts, Gen: gen, Run: run, QuickN: 1000, ThoroughN: 6000,
 		Preamble: "Open Scope Z_scope.\n"})
 }
